@@ -39,6 +39,8 @@ pub struct Rec {
 #[derive(Clone, Debug, PartialEq)]
 pub enum Item {
     Begin(String, u8),
+    /// follows every `Begin`: (FIR, FIN, UNS) of the fragment
+    Ctl(bool, bool, bool),
     End(String, u8),
     M(Rec),
     AbsTime(u64),
@@ -115,6 +117,11 @@ impl ReadHandler for Recorder {
         self.push(Item::Begin(
             format!("{read_type:?}"),
             header.control.seq.value(),
+        ));
+        self.push(Item::Ctl(
+            header.control.fir,
+            header.control.fin,
+            header.control.uns,
         ));
         MaybeAsync::ready(())
     }
